@@ -15,7 +15,7 @@ RULE = ('complete product of: outcome class (allow; deny by check; unknown '
         'class none/custom x extra positional args (),(1,),(1,"x") x kwargs '
         '{}/{k:v} x rule by name / as check object x enforce / authorize '
         '(registered, unregistered) x debug logging on/off x credentials as '
-        'dict / RequestContext / policy-values mapping x target plain / nested '
+        'dict / RequestContext / policy-values mapping / dict with the legacy system key beside an empty system_scope x target plain / nested '
         'with password / holding an un-copyable object; plus non-mapping '
         'credentials.  Oracles are differential: do_raise off falsy <=> on '
         'raises; raised object is exc(*args, **kwargs) or PolicyNotAuthorized '
@@ -110,10 +110,14 @@ def make_creds(rep, system=False):
         if rep == 'dict':
             return {'roles': ['r'], 'user_id': 'u', 'system_scope': 'all',
                     'domain_id': 'd1'}
+        if rep == 'legacy':
+            # the old spelling, next to the new one present but empty
+            return {'roles': ['r'], 'user_id': 'u', 'system': 'all',
+                    'system_scope': None, 'domain_id': 'd1'}
         ctx = context.RequestContext(user_id='u', roles=['r'],
                                      system_scope='all', domain_id='d1')
         return ctx if rep == 'context' else ctx.to_policy_values()
-    if rep == 'dict':
+    if rep in ('dict', 'legacy'):
         return {'roles': ['r'], 'user_id': 'u', 'project_id': 'p1'}
     ctx = context.RequestContext(user_id='u', roles=['r'], project_id='p1')
     return ctx if rep == 'context' else ctx.to_policy_values()
@@ -266,7 +270,7 @@ def run(job, seed):
                 'unknown', 'emptyset', 'fileonly-allow', 'fileonly-deny',
                 'unknowndflt-allow', 'unknowndflt-deny')
             for rep, tk, exc, args, kwargs in itertools.product(
-                    ('dict', 'context', 'values'),
+                    ('dict', 'context', 'values', 'legacy'),
                     ('plain', 'nested', 'lock'), (None, MyExc),
                     ((), (1,), (1, 'x')), ({}, {'k': 'v'})):
                 res = {}
